@@ -249,4 +249,20 @@ REG.update({
         "assumptions": ["the per-field quantifier is enumerated over the field list of the current transaction types, not proved; elliptic-curve recovery maths is trusted",
                         "rewritten transactions inside blocks (checkSig=false path through the pool sender cache) are covered by the C07 'add-foreign-transfer' / duplicate rows only"],
     },
+    "C15": {
+        "level": "exploration",
+        "tests": [{"pkg": "./chainsim", "run": "TestC15", "quick": 240, "thorough": 20000, "chunk": 20},
+                  {"pkg": "./evmsim", "run": "TestC15", "quick": 1600, "thorough": 150000, "chunk": 100}],
+        "rule": ("Wire half (chainsim TestC15): " + S5_RULE + "Fault kind 'corrupted frame': every block view a run produces (block view and header view, zone/region/prime) is serialised with the production gossip codec (pb.ConvertAndMarshal), "
+                 "corrupted 6 times (bit flip, truncation, byte deletion, byte duplication, 0xff, 0x00, inflated length prefix; positions derived from the block hash) and pushed through the production receive pipeline "
+                 "(pb.UnmarshalAndConvert -> Core.SanityCheck...ViewBody -> Core.WriteBlock and whatever the append does); every transaction of every block is corrupted 3 times as a protobuf transaction frame and fed to ProtoDecode and the live pool's AddRemote. "
+                 "Oracle: no panic escapes any of these entry points (the harness installs recover only to turn the panic into the violation) and the node can still return to its honest head. "
+                 "EVM half (evmsim TestC15): the generated programs and gas cuts of the S3 harness with memory-heavy actions and large ETX data windows; a tracer records memory size and gas at every step; "
+                 "oracle: the price of the memory growth a step causes (3 gas/word + words^2/512) never exceeds what that step was charged in total."),
+        "expect_probes": ["corrupt.bit-flip", "corrupt.truncate", "corrupt.huge-length-prefix", "corrupt.tx-bit-flip", "memory_growth_checked", "large_memory_expansion"],
+        "components": {"real": S5_COMPONENTS["real"] + ["p2p/pb gossip codec (ConvertAndMarshal / UnmarshalAndConvert)", "Core.SanityCheckWorkObject*ViewBody", "TxPool.AddRemote", "vm interpreter with a vm.Tracer"],
+                       "stub": S5_COMPONENTS["stub"] + ["the libp2p transport and the gossipsub validator wrapper (signature/PoW filter of shares) are not run", "request/response frames, AuxPoW donor data, RLP and hex/JSON RPC argument decoders are not fed"]},
+        "assumptions": ["frames are corruptions of real traffic, not arbitrary byte strings", "the 'memory proportional to the input' clause of decoders is not measured (allocation deltas are not attributable in a multi-goroutine process)",
+                        "raw block submission, AuxPoW donor parsers, RLP and hex/JSON argument decoders are not exercised by this check"],
+    },
 })
